@@ -1,6 +1,14 @@
 """C07: a CSR says exactly what its parameters say, or is refused."""
+import mir_check
 from vcore import Query
 from shapes import *
+
+
+def run_mir(tier, seed):
+    # the parse-back clause: CertificateSigningRequestParams::from_der carries subject / names / usages / key bits over and returns the
+    # generating key pair's algorithm (obligation shared with C06)
+    import csr
+    return mir_check.run_obligations([csr.ob_csr_accept], features="x509-parser")
 
 
 def shapes(tier):
@@ -38,8 +46,8 @@ def spec(tier, seed):
         qs.append(Query(name=f"c07_refuse_{m:02d}_{ck}", body=f"    csr::refuse({m}, {ck});", unwind=700, family="csr_refuse", stubs=S1,
                         functions=CSR_FUNCS, timeout=900,
                         shape=f"unsupported field(s) set: {what}" + (f" [{cks[ck]}]" if m & 2 else "") + "; Err(UnsupportedInCsr) and nothing signed"))
-    return {"queries": qs, "exhaustive": False,
+    return {"queries": qs, "mir": run_mir, "exhaustive": False,
             "bounds": "CSR shapes: <= 2 SANs (all variants but otherName), key-usage classes, <= 2 EKUs, <= 2 custom extensions, <= 2 caller attributes plus optionally one caller attribute of type extensionRequest itself "
                       "(concrete 3-arc OIDs, 5-byte SET value with a symbolic byte), strings 1..3 bytes symbolic; refusal: one query per combination of unsupported fields x CA variant (63 in all; quick runs the 7 single-field ones, all-set and 4 seeded others)",
-            "outside": "subject name content (engine M); parse-back round trip (x509-parser); otherName SANs at artefact level",
+            "outside": "subject name content (engine M, C02/C20); the parser library itself in the parse-back round trip (engine M obligation csr_accept decides what from_der does with an arbitrary parser result: subject, names, usages, key bits carried over, the key algorithm is the one named by the signature algorithm when it fits the SubjectPublicKeyInfo; x509-parser is the environment); otherName SANs at artefact level",
             "assumptions": ["S1, S3 as in DESIGN.md 2.2", "array-backed enum vectors", "CBMC --max-field-sensitivity-array-size 2048"]}
